@@ -27,9 +27,16 @@ if __name__ == '__main__':
             res = verify.verify_function(W, q)
         except Unsupported as e:
             print('UNSUPPORTED', q, e); continue
-        jobs = [(o.name, verify.obligation_smt2(W, res.ex, o), 20000, 0, True) for o in res.obligations]
+        jobs = []
+        rs0 = []
+        for o in res.obligations:
+            v, dt = verify.solve_in_process(W, res.ex, o, c.unfold_depth)
+            if v == 'unsat':
+                rs0.append({'name': o.name, 'verdict': 'unsat', 'solver': 'z3', 'time_s': round(dt, 3)})
+            else:
+                jobs.append((o.name, verify.obligation_variants(W, res.ex, o, c.unfold_depth), 20000, 0, True))
         t1 = time.time()
-        rs = solve.solve_all(jobs, 14)
+        rs = rs0 + solve.solve_all(jobs, 14)
         print('== %s: %d paths, %d obligations, gen %.1fs solve %.1fs' % (q, res.paths, len(jobs), t1 - t0, time.time() - t1))
         for r in rs:
             if r['verdict'] != 'unsat' or '-v' in os.environ.get('PYVC_FLAGS', ''):
